@@ -255,7 +255,7 @@ def flatten(src: Any, flatten_complex_keys: bool = True) -> Any:
   # update semantics on elements of tuple in `merge` method too.
   # Thus we simply flatten its elements and keep the tuple form.
   if isinstance(src, tuple):
-    return tuple([flatten(elem) for elem in src])
+    return tuple([flatten(elem, flatten_complex_keys) for elem in src])
 
   if not isinstance(src, (dict, list)) or not src:
     return src
